@@ -348,6 +348,28 @@ func storesUserKey(i ssa.Instruction, fn *ssa.Function) bool {
 	if key == nil {
 		return false
 	}
+	return storesParamIntoKey(i, key, 0)
+}
+
+// storesParamIntoKey: instruction i stores parameter key into a node's Key
+// slice, directly or by handing it to a (static) callee that does.
+func storesParamIntoKey(i ssa.Instruction, key *ssa.Parameter, depth int) bool {
+	if call, ok := i.(*ssa.Call); ok && depth < 3 {
+		if callee := call.Call.StaticCallee(); callee != nil && callee.Blocks != nil {
+			for ai, a := range call.Call.Args {
+				if ir.ResolveCell(ir.Strip(a)) != ssa.Value(key) || ai >= len(callee.Params) {
+					continue
+				}
+				for _, b := range callee.Blocks {
+					for _, ci := range b.Instrs {
+						if storesParamIntoKey(ci, callee.Params[ai], depth+1) {
+							return true
+						}
+					}
+				}
+			}
+		}
+	}
 	switch x := i.(type) {
 	case *ssa.Store:
 		if ir.ResolveCell(ir.Strip(x.Val)) != ssa.Value(key) {
